@@ -39,6 +39,14 @@ def is_num_like(x):
     return isinstance(x, (int, float, I, R)) and not isinstance(x, bool)
 
 
+import pickle as _pickle
+import pickletools as _pickletools
+
+# keys of every representation: text, bytes with the same content, a number, a pickled tuple, and the bytes key that
+# equals that tuple's serialized form (same `key` column, different `raw` flag)
+KEYPOOL = ['a', b'a', 7, (1, 2), _pickletools.optimize(_pickle.dumps((1, 2), protocol=_pickle.HIGHEST_PROTOCOL))]
+
+
 class Outcome(Exception):
     """the call ended the way a directive dictates (lock timeout / injected fault / kill): the directive's own
     clauses replace the functional specification"""
@@ -78,6 +86,9 @@ class Ctx:
             kw.setdefault('cull_limit', 0 if P.get('no_cull') else None)
         kw.setdefault('statistics', P.get('statistics', False))
         kw.setdefault('kinds', P.get('kinds', scn_mod.KINDS))
+        kw.setdefault('tags', P.get('tags', True))
+        if P.get('keypool'):
+            kw.setdefault('keypool', KEYPOOL)
         self.s = scn_mod.Scn(w, P['N'], policy=P.get('policy', 'least-recently-stored'), **kw)
         self.c = self.s.cache
         self.T0 = self.s.T0
@@ -85,6 +96,14 @@ class Ctx:
         self.policy = P.get('policy', 'least-recently-stored')
 
     def key(self, name='key'):
+        if self.P.get('keypool'):
+            ki = int(self.s.v_int(name + '_i', 0, len(KEYPOOL) - 1))
+            k = KEYPOOL[ki]
+            dbk, raw = self.c._disk.put(k)
+            kc, rc = self.w.bind(dbk), Cell(INT, int(raw))
+            self.opkeys.append((kc, rc))
+            flag('mixed_keys')
+            return k, kc, rc
         k = self.s.v_int(name, -2 ** 63, 2 ** 63 - 1)
         self.opkeys.append((Cell(INT, k.z), Cell(INT, 1)))
         return k, Cell(INT, k.z), Cell(INT, 1)
@@ -210,7 +229,7 @@ class Ctx:
             h = w.clone_handle(self.c)
             h.cull_limit = 0
             n = h.__len__()
-            ok = And(h.set(123456789, 1) is True, EqR(zv(h.get(123456789)), 1))
+            ok = And(h.set(-123456789, 1) is True, EqR(zv(h.get(-123456789)), 1), h.delete(-123456789) is True)
             cl.append(('C07', 'after a kill another process can still read and write', ok))
         except Exception as e2:
             cl.append(('C07', 'after a kill another process can still read and write (%s: %s)' % (type(e2).__name__, e2), False))
@@ -322,6 +341,8 @@ def clause_tags(lab):
         return 'C03,C09'
     if lab == 'other item unchanged or removed':
         return 'C03,C04'
+    if lab.startswith('written item'):
+        return 'C03,C09'
     return 'C03'
 
 
@@ -766,7 +787,14 @@ def ob_iter(w, P):
     x.add('C03', 'iteration yields every stored key once', EqI(len(ret), x.T0.count()))
     for p, k in enumerate(ret):
         it = nth_item(x.T0, order, p, reverse=rev)
-        x.add('C03,C02', 'iteration order and key identity (position %d)' % p, And(it.present, cell_same(w.bind(k), it.c['key'])))
+        dbk, rawk = c._disk.put(k) if P.get('keypool') else (k, True)
+        same_type = True
+        if P.get('keypool'):
+            if isinstance(k, I):
+                same_type = OrL(EqR(zv(k), pk) for pk in KEYPOOL if type(pk) is int)
+            else:
+                same_type = any(type(k) is type(pk) and k == pk for pk in KEYPOOL)
+        x.add('C03,C02', 'iteration order and key identity (position %d)' % p, And(it.present, cell_same(w.bind(dbk), it.c['key']), EqR(it.c['raw'].num, int(rawk)), same_type))
     x.add('C03', 'iteration changes nothing', unchanged(x.T0, x.T1))
     return x.result()
 
@@ -908,6 +936,13 @@ def jobs(tier):
         add('ob_peekitem', N=N, last=False)
         add('ob_stats', N=N)
         add('ob_volume', N=N)
+    # ---- keys of mixed representation (C02: every statement filters on key AND raw)
+    for func, extra in (('ob_set', {}), ('ob_add', {}), ('ob_touch', {}), ('ob_incr', {}), ('ob_get', {}), ('ob_contains', {}), ('ob_pop', {}), ('ob_delete', {'via': 'delete'}),
+                        ('ob_getitem', {'via': 'getitem'})):
+        out.append(dict(id=func[3:] + '.mixedkeys', func=func, params=dict(N=2, keypool=True, kinds=('int',), no_cull=True, tags=False, **extra), tags=['C02', 'C03'], functions=FUNCS[func] + ['core.Disk.put'],
+                        weight=30, must_reach=['mixed_keys']))
+    out.append(dict(id='iter.mixedkeys', func='ob_iter', params=dict(N=2, keypool=True, kinds=('int',), how='iter'), tags=['C02', 'C03'], functions=FUNCS['ob_iter'], weight=10))
+    out.append(dict(id='iterkeys.mixedkeys', func='ob_iter', params=dict(N=2, keypool=True, kinds=('int',), how='iterkeys'), tags=['C02', 'C03'], functions=FUNCS['ob_iter'], weight=10))
     # ---- directives: busy lock (C14), injected fault (C08), kill (C07)
     NB = 2
     for func in ('ob_set', 'ob_set_file', 'ob_add', 'ob_add_file', 'ob_touch', 'ob_incr', 'ob_pop', 'ob_delete'):
@@ -933,7 +968,7 @@ def jobs(tier):
     for func, extra in (('ob_get', {}), ('ob_getitem', {'via': 'getitem'}), ('ob_contains', {}), ('ob_len', {}), ('ob_iter', {'how': 'iter'}), ('ob_iter', {'how': 'iterkeys'})):
         out.append(dict(id=func[3:] + '.lockfree.' + '.'.join(extra.values()), func=func, params=dict(N=NB, busy='always', **extra), tags=['C14'], functions=FUNCS[func], weight=1, all_clauses=True))
     for func in ('ob_set', 'ob_set_file', 'ob_add_file', 'ob_incr', 'ob_pop', 'ob_delete', 'ob_touch', 'ob_clear', 'ob_expire'):
-        out.append(dict(id=func[3:] + '.fault', func=func, params=dict(N=NB, fault=True, page=1), tags=['C08'], functions=FUNCS[func] + ['core.Cache._transact'],
+        out.append(dict(id=func[3:] + '.fault', func=func, params=dict(N=NB, fault=True, page=1), tags=['C08', 'C01', 'C03'], functions=FUNCS[func] + ['core.Cache._transact'],
                         weight=30, must_reach=['fault_escaped']))
     for func in ('ob_set', 'ob_set_file', 'ob_add_file', 'ob_incr', 'ob_pop', 'ob_delete', 'ob_touch', 'ob_clear', 'ob_expire', 'ob_evict', 'ob_cull'):
         out.append(dict(id=func[3:] + '.kill', func=func, params=dict(N=NB, crash=True, page=1), tags=['C07'], functions=FUNCS[func] + ['core.Cache._transact'],
